@@ -175,3 +175,133 @@ Proof.
   destruct cx_result as [[[ops' e'] bl']|] eqn:E; [|discriminate E].
   exists ops', e', bl'. split; [exact E|]. vm_compute in E. injection E as <- <- <-. repeat split.
 Qed.
+
+(* ================================================================== (3) a tape through the rest of core_family
+   forward-mode tangents of an evaluated tape, computed by the operators' JVPs (so `consistent`
+   holds by computation) *)
+Section Tangents.
+  Context {Op Sh : Type} (F : OpFamily Op Sh (@OpFamily.vec Z)) (jvp : JvpFamily (R := Z) Op).
+  Variables (dp : nat -> @OpFamily.vec Z) (e : @env (@OpFamily.vec Z)).
+  Definition tan_at (T : list (list (@OpFamily.vec Z))) (a : nat * nat) : @OpFamily.vec Z := nth (snd a) (nth (fst a) T []) [].
+  Definition tan_step (ops : list (@opinfo Op Sh (@OpFamily.vec Z))) (T : list (list (@OpFamily.vec Z))) (oi : @opinfo Op Sh (@OpFamily.vec Z)) :=
+    match f_inner F (o_op oi) with
+    | Some p => [dp p]
+    | None => jvp (o_op oi) 0%N
+                (map (fun a => match bread F ops e a with Some x => x | None => [] end) (o_args oi))
+                (map (tan_at T) (o_args oi))
+    end.
+  Definition tangents (ops : list (@opinfo Op Sh (@OpFamily.vec Z))) : list (list (@OpFamily.vec Z)) :=
+    fold_left (fun T oi => T ++ [tan_step ops T oi]) ops [].
+End Tangents.
+
+Definition sW := mkT [2; 3] 1.      Definition sv := mkT [2] 1.        Definition sx32 := mkT [3] 2.
+Definition s2b2 := mkT [2] 2.       Definition s4b2 := mkT [4] 2.      Definition s12b2 := mkT [1; 2] 2.
+Definition s23b2 := mkT [2; 3] 2.   Definition s32b2 := mkT [3; 2] 2.  Definition s1b1 := mkT [1] 1.
+Definition s1b2 := mkT [1] 2.       Definition s1b3 := mkT [1] 3.      Definition s1b4 := mkT [1] 4.
+Definition sK := mkT [2; 2] 1.      Definition sI := mkT [3; 3] 1.     Definition s4b1 := mkT [4] 1.
+Definition cy_env : @env (@OpFamily.vec Z) :=
+  {| e_pval := fun p => match p with O => [1; -2; 3; 0; 2; -1]%Z | S O => [4; -3]%Z | _ => [1; 2; -1; 3]%Z end;
+     e_pgrad := fun p => match p with O => [0; 0; 0; 0; 0; 0]%Z | S O => [7; 7]%Z | _ => [1; 1; 1; 1]%Z end;
+     e_pos := fun _ => 0%N |}.
+Definition cy_cmds : list (@cmd zcop tshape (@OpFamily.vec Z)) :=
+  [ CNewGraph;
+    CAdd 0 (OParam 0 sW) [];                                            (*  0: W       {2,3}        *)
+    CAdd 0 (OParam 1 sv) [];                                            (*  1: v       {2}          *)
+    CAdd 0 (OInput sx32 [1; 2; 3; 4; 5; 6]%Z) [];                       (*  2: x       {3} x 2      *)
+    CAdd 0 (OMatmul sW sx32 s2b2) [nd 0 0 0; nd 0 2 0];                 (*  3: W x     {2} x 2      *)
+    CAdd 0 (OSub s2b2 sv) [nd 0 3 0; nd 0 1 0];                         (*  4: W x - v {2} x 2      *)
+    CAdd 0 (OConcat [s2b2; sv] s4b2 0) [nd 0 4 0; nd 0 1 0];            (*  5: concat  {4} x 2      *)
+    CAdd 0 (OSplit s4b2 s2b2 0 2) [nd 0 5 0];                           (*  6: split -> 2 x {2} x 2 *)
+    CAdd 0 (OFlip s2b2 0) [nd 0 6 0];                                   (*  7: flip of the 1st part; the 2nd output stays unused *)
+    CAdd 0 (OReshape s2b2 s12b2) [nd 0 7 0];                            (*  8: {1,2} x 2            *)
+    CAdd 0 (OTranspose s12b2 s2b2) [nd 0 8 0];                          (*  9: {2} x 2              *)
+    CAdd 0 (OBroadcast s2b2 s23b2 1 3) [nd 0 9 0];                      (* 10: {2,3} x 2            *)
+    CAdd 0 (OPermute s23b2 s32b2 [1; 0]) [nd 0 10 0];                   (* 11: {3,2} x 2            *)
+    CAdd 0 (OPick s32b2 s12b2 [2; 0] 0) [nd 0 11 0];                    (* 12: {1,2} x 2            *)
+    CAdd 0 (OSum s12b2 s1b2 1) [nd 0 12 0];                             (* 13: {1} x 2              *)
+    CAdd 0 (OBatchSlice s1b2 s1b1 1) [nd 0 13 0];                       (* 14: {1} x 1              *)
+    CAdd 0 (OBatchConcat [s1b2; s1b1] s1b3) [nd 0 13 0; nd 0 14 0];     (* 15: {1} x 3              *)
+    CAdd 0 (OBatchPick s1b3 s1b4 [2; 0; 0; 1]) [nd 0 15 0];             (* 16: {1} x 4              *)
+    CAdd 0 (OBatchSplit s1b4 s1b2 2) [nd 0 16 0];                       (* 17: 2 x {1} x 2          *)
+    CAdd 0 (OBatchSum s1b2 s1b1) [nd 0 17 0];                           (* 18: {1} x 1              *)
+    CAdd 0 (OParam 2 sK) [];                                            (* 19: K       {2,2}        *)
+    CAdd 0 (OInput sI [1; 2; 3; 4; 5; 6; 7; 8; 9]%Z) [];                (* 20: image   {3,3}        *)
+    CAdd 0 (OConv2d sI sK sK 0 0 1 1 1 1) [nd 0 20 0; nd 0 19 0];       (* 21: conv2d  {2,2}        *)
+    CAdd 0 (OReshape sK s4b1) [nd 0 21 0];                              (* 22: {4}                  *)
+    CAdd 0 (OSum s4b1 s1b1 0) [nd 0 22 0];                              (* 23: {1}                  *)
+    CAdd 0 (OMul s1b1 s1b1) [nd 0 18 0; nd 0 23 0];                     (* 24: product of branches  *)
+    CAdd 0 (OStop s1b1) [nd 0 24 0];                                    (* 25: stop_gradient        *)
+    CAdd 0 (OAdd s1b1 s1b1) [nd 0 24 0; nd 0 25 0];                     (* 26                       *)
+    CAdd 0 (OCopy s1b1) [nd 0 26 0];                                    (* 27: u                    *)
+    CAdd 0 (OMulConst s1b1 3%Z) [nd 0 27 0];                            (* 28: 3 u                  *)
+    CAdd 0 (OSubConstL s1b1 10%Z) [nd 0 28 0];                          (* 29: 10 - 3 u             *)
+    CAdd 0 (ONeg s1b1) [nd 0 29 0];                                     (* 30: 3 u - 10             *)
+    CAdd 0 (OAddConst s1b1 5%Z) [nd 0 30 0];                            (* 31                       *)
+    CAdd 0 (OSubConstR s1b1 1%Z) [nd 0 31 0];                           (* 32: y = 3 u - 6          *)
+    CForward 0 (32, 0) ].
+Definition cy_ops0 : list (@opinfo zcop tshape (@OpFamily.vec Z)) :=
+  Eval vm_compute in
+    match w_graphs (run_all zF cVO {| w_graphs := []; w_env := cy_env |} cy_cmds) with
+    | g :: _ => g_ops g | [] => [] end.
+Definition cy_dp : nat -> @OpFamily.vec Z :=
+  fun p => match p with O => [1; 0; 2; -1; 0; 3]%Z | S O => [5; -2]%Z | _ => [0; 1; -1; 2]%Z end.
+Definition cy_T : list (list (@OpFamily.vec Z)) := Eval vm_compute in tangents zF zJ cy_dp cy_env cy_ops0.
+Definition cy_tan : nat * nat -> @OpFamily.vec Z := tan_at cy_T.
+Definition cy_seeded := upd_ops cy_ops0 (32, 0) (fun s => set_grad s (Some (vones cVO (s_shape s)))).
+Definition cy_result := Eval vm_compute in sweep zF cVO 32 cy_seeded cy_env [].
+
+Lemma cy_wf : wf_ops cy_ops0.
+Proof.
+  intros k oi H. nth_cases k H ltac:(cbn; repeat constructor; cbn; try lia; eexists; (split; [reflexivity|cbn; lia])).
+Qed.
+(* every guard of the tape's operators evaluates to true on its operand shapes *)
+Lemma cy_shape_ok : shape_ok zF cy_ops0.
+Proof.
+  intros k oi H Hi.
+  nth_cases k H ltac:(try discriminate Hi;
+    (eexists; split; [repeat (constructor; [eexists; split; reflexivity|]); constructor|vm_compute; reflexivity])).
+Qed.
+Lemma cy_consistent : consistent zF zJ cy_tan cy_dp cy_ops0 cy_env.
+Proof.
+  intros k oi H.
+  nth_cases k H ltac:(cbn [o_op zF core_family f_inner o_rets]; try (split; reflexivity);
+    (intros ys Hys; cbn in Hys; injection Hys as <-;
+     eexists 0%N, _; split; [repeat (constructor; [lazy; reflexivity|]); constructor|split; vm_compute; reflexivity])).
+Qed.
+Lemma cy_rsized : rsized zF tsize cy_tan cy_ops0 cy_env.
+Proof.
+  intros [k v] s H. unfold get_slot_ops in H. cbn [fst snd] in H.
+  do 33 (destruct k as [|k];
+          [do 2 (destruct v as [|v]; [cbn in H; first [discriminate H|injection H as <-; split; [reflexivity|intros x [= <-]; reflexivity]]|]);
+           cbn in H; destruct v; discriminate H|]);
+  cbn in H; destruct k; discriminate H.
+Qed.
+Lemma cy_gclean : gclean cy_ops0.
+Proof.
+  intros [k v] s H. unfold get_slot_ops in H. cbn [fst snd] in H.
+  do 33 (destruct k as [|k];
+          [do 2 (destruct v as [|v]; [cbn in H; first [discriminate H|injection H as <-; reflexivity]|]);
+           cbn in H; destruct v; discriminate H|]);
+  cbn in H; destruct k; discriminate H.
+Qed.
+Lemma cy_psz : psz zF tsize cy_ops0 cy_env.
+Proof.
+  intros k oi p s H Hi Hs. nth_cases k H ltac:(try discriminate Hi; cbn in Hi; injection Hi as <-; cbn in Hs; injection Hs as <-; reflexivity).
+Qed.
+Lemma cy_cover k oi p : nth_error cy_ops0 k = Some oi -> f_inner zF (o_op oi) = Some p -> In p [0; 1; 2].
+Proof. intros H Hi. nth_cases k H ltac:(try discriminate Hi; cbn in Hi; injection Hi as <-; cbn; tauto). Qed.
+Lemma cy_nodup : NoDup [0; 1; 2].
+Proof. repeat constructor; cbn; intuition discriminate. Qed.
+
+(* with A = sum_b sum(W x_b - v) = 23, C = sum(conv2d(image, K)) = 96, u = A C + stop_gradient(A C),
+   y = 3 u - 6:  d/dW = 3 C (x_0 + x_1)^T per row = 288 (5,7,9), d/dv = -6 C, d/dK = 3 A (28, 24, 16, 12),
+   added to the prior gradients (0.., (7,7), (1,1,1,1)) *)
+Lemma cy_run : exists ops' e' bl',
+  sweep zF cVO 32 cy_seeded cy_env [] = Some (ops', e', bl') /\
+  e_pgrad e' 0 = [1440; 1440; 2016; 2016; 2592; 2592]%Z /\ e_pgrad e' 1 = [-569; -569]%Z /\
+  e_pgrad e' 2 = [1933; 1657; 1105; 829]%Z /\ length bl' = 33 /\
+  ppot 0%Z Z.add Z.mul cy_dp [0; 1; 2] e' = (ppot 0%Z Z.add Z.mul cy_dp [0%nat; 1%nat; 2%nat] cy_env + 11712)%Z.
+Proof.
+  destruct cy_result as [[[ops' e'] bl']|] eqn:E; [|discriminate E].
+  exists ops', e', bl'. split; [exact E|]. vm_compute in E. injection E as <- <- <-. repeat split.
+Qed.
